@@ -6,7 +6,7 @@ let run (line : string) : string =
   | fn :: age :: ents ->
       let dir = List.map (fun e ->
         match String.split_on_char ':' e with
-        | [n; k; off] -> { de_name = bytes_of_hex n; de_kind = n_of_int (int_of_string k); de_mtime = z_of_int (int_of_string off) }
+        | [n; k; off] -> { de_name = bytes_of_hex n; de_kind = n_of_int (let k = int_of_string k in if k = 3 then 1 else k) (* 3 = a directory with files inside: a directory *); de_mtime = z_of_int (int_of_string off) }
         | _ -> failwith "bad entry") ents in
       let surv = clear_expired (bytes_of_hex fn) (z_of_int (int_of_string age)) Z0 dir in
       String.concat " " (List.sort compare (List.map (fun e -> hex_of_bytes e.de_name) surv))
